@@ -11,6 +11,9 @@
 #ifdef HWLOC_VERIF
 extern void (*hwloc_verif_phase_cb)(struct hwloc_topology *topology, int phase);
 static void phase_cb(struct hwloc_topology *t, int phase) { hwv_dump_raw(stdout, t, phase); }
+extern void (*hwloc_verif_insert_cb)(struct hwloc_topology *topology, int when, struct hwloc_obj *root, struct hwloc_obj *obj, struct hwloc_obj *result);
+static void insert_cb(struct hwloc_topology *t, int when, struct hwloc_obj *root, struct hwloc_obj *obj, struct hwloc_obj *result)
+{ hwv_dump_insert(stdout, t, when, root, obj, result); }
 #endif
 
 int main(void)
@@ -29,6 +32,7 @@ int main(void)
       /* phases 1|0 : print the raw tree at the phase boundaries of hwloc_discover (needs the HWLOC_VERIF hook) */
 #ifdef HWLOC_VERIF
       hwloc_verif_phase_cb = atoi(line + 7) ? phase_cb : NULL;
+      hwloc_verif_insert_cb = atoi(line + 7) >= 2 ? insert_cb : NULL;   /* phases 2: also trace every insertion by cpuset */
       printf("phases rc=0\n");
 #else
       printf("phases rc=-1\n");
